@@ -74,6 +74,11 @@ _CATALOGUE = {
     'TimeoutErrorStudent': (lambda: TimeoutError("student-raised timeout"), TimeoutError),
     'UnicodeDecodeError': (lambda: UnicodeDecodeError('utf-8', b'\xff', 0, 1, 'invalid start byte'),
                            UnicodeDecodeError),
+    'Exception': (lambda: Exception("plain exception"), Exception),
+    'RuntimeError': (lambda: RuntimeError("runtime failure"), RuntimeError),
+    'LookupError': (lambda: LookupError("lookup failure"), LookupError),
+    'ArithmeticError': (lambda: ArithmeticError("arithmetic failure"), ArithmeticError),
+    'NotImplementedError': (lambda: NotImplementedError(), NotImplementedError),
     'StudentError': (lambda: StudentError("custom failure"), StudentError),
     'EmptyMessage': (lambda: StudentError(), StudentError),
     'NonStrArgs': (lambda: StudentError(42, [1, 2], None), StudentError),
@@ -94,7 +99,8 @@ ORDINARY = ['ValueError', 'KeyError', 'ZeroDivisionError', 'IndexError', 'TypeEr
             'AttributeError', 'NameError', 'OSError', 'OSError2', 'FileNotFoundError',
             'StopIteration', 'AssertionError', 'RecursionError', 'MemoryError', 'ImportError',
             'TimeoutErrorStudent', 'UnicodeDecodeError',
-            'StudentError', 'EmptyMessage', 'NonStrArgs', 'FalsyError', 'EmptyCollectionError']
+            'StudentError', 'EmptyMessage', 'NonStrArgs', 'FalsyError', 'EmptyCollectionError',
+            'Exception', 'RuntimeError', 'LookupError', 'ArithmeticError', 'NotImplementedError']
 BROKEN = ['BadStrError', 'BadReprError', 'BadBothError']
 EXITS = ['SystemExit', 'SystemExitInt', 'SystemExitStr']
 BASE = ['KeyboardInterrupt', 'GeneratorExit', 'StudentBase']
